@@ -8,3 +8,4 @@ INVARIANT BarriersOK
 INVARIANT SnapshotsOK
 CHECK_DEADLOCK FALSE
 INVARIANT AnswersAreSLD
+PROPERTY DbStepShape
